@@ -300,6 +300,9 @@ func GenProgram(r *Rand, o ProgOpts) []Op {
 		case 4:
 			b := Op{K: "batch"}
 			m := r.Range(1, 5)
+			if r.Bool(0.04) {
+				m = 0 // an empty batch is a legal call and must be a no-op
+			}
 			used := map[string]bool{}
 			for j := 0; j < m; j++ {
 				k := o.Keys.Pick(r)
